@@ -329,7 +329,7 @@ Qed.
 
 Lemma gen_WriteFile_runs_model : forall sha nm (B : behaviour F) dir path content wid u s,
   getN wid (s_w s) = None -> getN wid (s_ino s) = None ->
-  (forall h d p f, b_create F B h d p = (f, None) ->
+  (forall f, b_create F B [] dir gen_temp_file_pattern = (f, None) ->
       is_temp (nm (name f)) = true /\ getS (nm (name f)) (s_dir s) = None) ->
   nm path = key sha u ->
   let r := gen_write_logged F name B dir path content in
@@ -410,3 +410,111 @@ Proof.
     cbn [fst snd is_none negb]; eexists; (split; [reflexivity|reflexivity]).
 Qed.
 End SetEquiv.
+
+(* ---------- Set, end to end: a run of the generated Set is a writer of the model ---------- *)
+Section SetRuns.
+Variable sum : list Z -> list Z.
+Variable hexenc : list Z -> string.
+Variable F : Type.
+Variable name : F -> string.
+Variable join : list string -> string.
+Variable marshal : crl_fileCacheContent -> list Z * option err.
+Variable nm : string -> string.
+
+Definition gen_set_logged (B : behaviour F) (c : crl_FileCache) (url : string) (bundle : ptr crl_Bundle) :=
+  gen_crl_FileCache_Set sum hexenc F (list (call F))
+    (fun w d p => flat3 (l_create F B w d p)) (fun w f b => flat3 (l_write F B w f b))
+    (l_close F B) name (l_rename F B) (l_remove F B) join marshal [] c url bundle.
+
+Definition stored_bytes (bundle : ptr crl_Bundle) : list Z :=
+  match set_bytes marshal bundle with Some b => b | None => [] end.
+
+Lemma gen_Set_runs_model : forall (B : behaviour F) c url bundle wid s,
+  (forall l, hexenc l = hex (map Z.to_N l)) ->
+  (forall k, nm (join [FileCache_root c; k]) = k) ->
+  getN wid (s_w s) = None -> getN wid (s_ino s) = None ->
+  (forall f, b_create F B [] (FileCache_root c) gen_temp_file_pattern = (f, None) ->
+      is_temp (nm (name f)) = true /\ getS (nm (name f)) (s_dir s) = None) ->
+  exists r, gen_set_logged B c url bundle = Some r /\
+  exists s', exec (sha_of_sum sum) s
+               (events F name wid url (data_of_bytes (stored_bytes bundle)) nm false (fst r)) = Some s' /\
+             end_state (sha_of_sum sum) s s' wid url (data_of_bytes (stored_bytes bundle)) (is_none (snd r)).
+Proof.
+  intros B c url bundle wid s Hh Hn Gw Gi HC.
+  destruct (gen_Set_equiv sum hexenc F (list (call F))
+              (fun w d p => flat3 (l_create F B w d p)) (fun w f b => flat3 (l_write F B w f b))
+              (l_close F B) name (l_rename F B) (l_remove F B) join marshal [] c url bundle) as [r [E S]].
+  exists r. split; [exact E|]. unfold stored_bytes.
+  destruct (set_bytes marshal bundle) as [bytes|].
+  - assert (nm (set_path sum hexenc join c url) = key (sha_of_sum sum) url) as HP.
+    { unfold set_path. rewrite Hn. apply gen_fileName_key. exact Hh. }
+    pose proof (gen_WriteFile_runs_model F name (sha_of_sum sum) nm B (FileCache_root c)
+                  (set_path sum hexenc join c url) bytes wid url s Gw Gi HC HP) as M.
+    cbv zeta in M. unfold gen_write_logged in M. unfold gen_write in S.
+    inversion S as [[S1 S2]]. rewrite S1, S2. exact M.
+  - destruct S as [S1 S2]. rewrite S1. cbn [fst snd]. rewrite S2.
+    exists s. split; [reflexivity|]. left. reflexivity.
+Qed.
+End SetRuns.
+
+(* ---------- consequences of the five sequences, for the generated WriteFile ---------- *)
+Lemma gen_WriteFile_writes_only_temp : forall F name (B : behaviour F) dir path content,
+  writes_only_temp F dir (fst (gen_write_logged F name B dir path content)).
+Proof. intros. eapply run_writes_only_temp. apply gen_WriteFile_steps. Qed.
+
+Lemma gen_WriteFile_failure_removes : forall F name (B : behaviour F) dir path content,
+  snd (gen_write_logged F name B dir path content) <> None ->
+  let log := fst (gen_write_logged F name B dir path content) in
+  (exists f e, log = [CCreate dir gen_temp_file_pattern (f, Some e)]) \/
+  (exists f r0 mid rr, log = CCreate dir gen_temp_file_pattern (f, r0) :: mid ++ [CRemove (name f) rr])%list.
+Proof.
+  intros F name B dir path content H log. apply (run_failure_removes F name dir path content).
+  pose proof (gen_WriteFile_steps F name B dir path content) as R.
+  destruct (snd (gen_write_logged F name B dir path content)); [exact R|contradiction].
+Qed.
+
+(* the destination is touched by one call only: the final Rename, and only after Write and Close of the
+   temporary file succeeded *)
+Lemma gen_WriteFile_success_shape : forall F name (B : behaviour F) dir path content,
+  snd (gen_write_logged F name B dir path content) = None ->
+  exists f n, fst (gen_write_logged F name B dir path content) =
+    [CCreate dir gen_temp_file_pattern (f, None); CWrite f content (n, None); CClose f None;
+     CRename (name f) path None].
+Proof.
+  intros F name B dir path content H.
+  pose proof (gen_WriteFile_steps F name B dir path content) as R. rewrite H in R. cbn [is_none] in R.
+  inversion R. eauto.
+Qed.
+
+(* ---------- transport: the generated Set extends the traces the property theorems quantify over ---------- *)
+Lemma events_safe : forall F name wid u c nm log failed,
+  forallb safe (events F name wid u c nm failed log) = true.
+Proof.
+  intros F name wid u c nm log. induction log as [|x log IH]; intros failed; [reflexivity|].
+  destruct x as [d p [f [e|]]|f b [n [e|]]|f [e|]|a b [e|]|p [e|]]; destruct failed; cbn [events forallb safe andb];
+    try apply IH; try reflexivity.
+Qed.
+
+Lemma gen_Set_extends_trace :
+  forall sum hexenc F name join marshal nm (B : behaviour F) c url bundle wid tr s,
+  (forall l, hexenc l = hex (map Z.to_N l)) ->
+  (forall k, nm (join [FileCache_root c; k]) = k) ->
+  forallb safe tr = true -> exec (sha_of_sum sum) init tr = Some s ->
+  getN wid (s_w s) = None -> getN wid (s_ino s) = None ->
+  (forall f, b_create F B [] (FileCache_root c) gen_temp_file_pattern = (f, None) ->
+      is_temp (nm (name f)) = true /\ getS (nm (name f)) (s_dir s) = None) ->
+  exists r s', gen_set_logged sum hexenc F name join marshal B c url bundle = Some r /\
+    let tr' := (tr ++ events F name wid url (data_of_bytes (stored_bytes marshal bundle)) nm false (fst r))%list in
+    forallb safe tr' = true /\ exec (sha_of_sum sum) init tr' = Some s' /\
+    (snd r = None -> getS (key (sha_of_sum sum) url) (s_dir s') = Some wid /\
+                     getN wid (s_ino s') = Some (data_of_bytes (stored_bytes marshal bundle))).
+Proof.
+  intros sum hexenc F name join marshal nm B c url bundle wid tr s Hh Hn St Ex Gw Gi HC.
+  destruct (gen_Set_runs_model sum hexenc F name join marshal nm B c url bundle wid s Hh Hn Gw Gi HC)
+    as [r [E [s' [X En]]]].
+  exists r, s'. split; [exact E|]. cbv zeta. split; [|split].
+  - rewrite forallb_app, St, events_safe. reflexivity.
+  - rewrite exec_app, Ex. exact X.
+  - intros Ok. rewrite Ok in En. cbn [is_none] in En. unfold end_state in En.
+    destruct En as [t [_ [K [I _]]]]. split; assumption.
+Qed.
